@@ -43,30 +43,30 @@ def main(tier, seed):
     outs = parallel([job(i, p) for i, p in enumerate(profs)], nproc=5)
     for prof, f in zip(profs, outs):
         files += split_file(f, 3, d, prof)
+    # the hand-written closure and table idioms (C06 / C07) under the same collection schedules
+    import probes
+    # (without the idiom that exercises the known C06 finding: its outcome is wrong under every schedule, which is not C02's business)
+    idioms = [probes.C06_IDIOMS[k] for k in sorted(probes.C06_IDIOMS) if k != "captured-loop-var-with-stray-value"] + \
+             [probes.C07_IDIOMS[k] for k in sorted(probes.C07_IDIOMS)]
+    icases = os.path.join(d, "idioms.cases")
+    with open(icases, "w") as fh:
+        for i, pr in enumerate(idioms):
+            fh.write(json.dumps({"id": i, "prog": pr}) + "\n")
+    fi = os.path.join(d, "idioms.ndjson")
+
+    def on_crash_i(info, kind, rc):
+        o = info["op"]
+        return {"id": info["case"], "profile": "idioms/gc:%s" % o.get("schedule"), "prog": o["prog"], "cmp_loc": False,
+                "schedule": o.get("schedule"), "at": o.get("at"),
+                "obs": {"st": kind, "kind": str(rc)[:600], "globals": {}, "log": [], "trace": []}}
+    drive_trace(["gc-drive", "--profile", "idioms", "--cases", icases, "--seed", seed, "--n", len(idioms), "--schedules", k + 2], fi, len(idioms),
+                timeout=1800, on_crash=on_crash_i, binary=asan, max_crashes=6)
+    files += split_file(fi, 3, d, "idioms")
+    run.notes["idioms_under_collection_schedules"] = len(idioms)
     # 3. the Collect action bound to the real collector: heap snapshots at the start of collections (root categories +
     #    object graph) and one event per freed object, validated by TLC: nothing reachable is freed, all garbage is freed
-    hfiles = []
-
-    def hjob(i, prof):
-        def go():
-            f = os.path.join(d, "heap-%s.ndjson" % prof)
-            drive_trace(["heap-drive", "--profile", prof, "--seed", seed * 100 + 50 + i, "--n", n, "--collections", 10 if not thorough else 30],
-                        f, n, timeout=1800)
-            return f
-        return go
-    hfiles = parallel([hjob(i, p) for i, p in enumerate(["alloc", "closures", "std", "host"])], nproc=4)
-    ncoll = sum(1 for f in hfiles for l in open(f) if '"Snapshot"' in l)
-    nfree = sum(1 for f in hfiles for l in open(f) if '"Free"' in l)
-    run.notes["collections_with_snapshot"] = ncoll
-    run.notes["objects_freed_in_them"] = nfree
-    if ncoll < 50:
-        run.thin_corpus("too few collections recorded: %d" % ncoll)
-    validate_traces(run, "VmHeapTrace.tla", {}, ["Safe"], hfiles, "heap-trace", timeout=2400,
-                    site_of=lambda m: str(m.get("why")))
-    for v in run.viol:
-        if v["kind"] == "trace-rejected" and "why" in v["detail"]:
-            v["kind"] = "collector-" + ("freed-reachable-object" if "still reach" in v["detail"]["why"] else
-                                        "left-garbage" if "survived" in v["detail"]["why"] else "protocol")
+    heap_trace(run, ["alloc", "closures", "std", "host"], n, 10 if not thorough else 30, seed, "C02-heap",
+               lambda why: "still reach" in why or "free outside" in why)
     note_program_stats(run, files)
     sched = {}
     for tf in files:
